@@ -263,11 +263,15 @@ def run_C20(ctx, model_available=True):
         # the index computed independently of the index market: share-weighted average of the
         # components' current market prices
         shares = [m.outstanding_shares for m in mks]
-        index = sum(m.get_market_price() * sh for m, sh in zip(mks, shares)) / sum(shares)
-        if not math.isclose(idx.get_index(), index, rel_tol=1e-12):
+        index_indep = sum(m.get_market_price() * sh for m, sh in zip(mks, shares)) / sum(shares)
+        if not math.isclose(idx.get_index(), index_indep, rel_tol=1e-12):
             add_v(viol("C20/index-seen-by-arbitrage-agent-stale-or-wrong", "the computed index the agent compares with is the share-weighted average of the components' current market prices",
-                       {"index_market_says": idx.get_index(), "weighted_average_now": index,
+                       {"index_market_says": idx.get_index(), "weighted_average_now": index_indep,
                         "component_prices": [m.get_market_price() for m in mks]}, {"kind": "arb-index", "n": n}))
+        # the decision itself is judged against the index value as the index market computes it (the
+        # independent recomputation above may differ from it in the last bits, which matters exactly
+        # at the threshold)
+        index = idx.get_index()
         mode = rng.random()
         a.order_threshold_price = rng.choice([0.5, 1.0, 2.0])
         if mode < 0.2:
